@@ -48,7 +48,7 @@ WARN = {
     "STEPD.alpha_warning": ("STEPD", "alpha_warning", [0.01, 0.05, 0.1, 0.3, 0.6, 0.8]),
     "LFR.warning_level": ("LinearFourRates", "warning_level", [0.05, 0.1, 0.2, 0.4]),
 }
-COST = {"LFR.detect_level": 0.25, "LFR.warning_level": 0.25, "KdqS.alpha": 0.4, "NNDVI.alpha": 0.5, "KdqB.alpha": 1.0}
+COST = {"LFR.detect_level": 0.25, "LFR.warning_level": 0.25, "KdqS.alpha": 0.4, "NNDVI.alpha": 0.5, "KdqB.alpha": 2.0}
 
 
 def scenarios(tier):
@@ -91,7 +91,9 @@ def gen(rng, scenario, tier):
     if k == "batch":
         bs, drifts = workload.batches(rng, rng.randint(8, 18), adapters.n_features(rng, name), 10, 40)
         ev = [[b_, np_seed(rng)] for b_ in bs]
-        refs = [i for i in range(1, min(5, len(ev))) if rng.random() < 0.25]
+        refs = [i for i in range(1, len(ev)) if rng.random() < 0.25]     # explicit set_reference: thresholds are redrawn often
+        if name == "KdqTreeBatch":
+            cfg["bootstrap_samples"] = rng.choice([5, 6, 8, 12])
     elif k == "x":
         knd = rng.choice(["gauss", "ramp", "heavy"]) if name == "CUSUM" else None
         xs, drifts = workload.stream_values(rng, rng.randint(80, 300), kind=knd)
